@@ -1,6 +1,7 @@
 package redisemu
 
 import (
+	"math"
 	"math/bits"
 )
 
@@ -136,13 +137,16 @@ func setBitfield(bytes []byte, start, width int, value int64) {
 }
 
 func isSignedSumOverflow(a, b int64, bits int) bool {
+	// (written so that no intermediate result leaves the int64 range, whatever b is)
 	signBit := int64(1) << (bits - 1)
+	ceiling := signBit - 1
+	bottom := ^ceiling
 	if b > 0 {
-		ceiling := signBit - 1
-		return b > (ceiling - a)
+		return a > (ceiling - b)
+	} else if b == math.MinInt64 {
+		return bits < 64 || a < 0
 	} else {
-		bottom := ^(signBit - 1)
-		return b < (bottom - a)
+		return a < (bottom - b)
 	}
 }
 
